@@ -54,10 +54,28 @@ pub fn parse_tokens(entry: Entry, tokens: Vec<Token>) -> Result<(Parsed, usize),
         result: nom::IResult<crate::parser::ParserInput<'a>, O, crate::parser::InternalParseError<'a>>,
         wrap: impl FnOnce(O) -> Parsed,
     ) -> Result<(Parsed, usize), Rejected> {
+        // What every `from_str` does with a rejected input: convert the internal error (and its
+        // chain of previous errors) into the public `ParseError` (line, column, snippet), which a
+        // caller then formats. A panic in there is a panic of parsing too.
+        fn publish(error: crate::parser::InternalParseError<'_>) {
+            let public = crate::parser::ParseError::from(error);
+            let _ = format!("{public} {public:#} {public:?}");
+            let mut source = std::error::Error::source(&public);
+            while let Some(inner) = source {
+                let _ = format!("{inner} {inner:#} {inner:?}");
+                source = inner.source();
+            }
+        }
         match result {
             Ok((rest, parsed)) => Ok((wrap(parsed), rest.len())),
-            Err(nom::Err::Error(_)) => Err(Rejected::Error),
-            Err(nom::Err::Failure(_)) => Err(Rejected::Failure),
+            Err(nom::Err::Error(error)) => {
+                publish(error);
+                Err(Rejected::Error)
+            }
+            Err(nom::Err::Failure(error)) => {
+                publish(error);
+                Err(Rejected::Failure)
+            }
             Err(nom::Err::Incomplete(_)) => unreachable!("complete parsers only"),
         }
     }
